@@ -130,6 +130,39 @@ pub fn vp9cfg() -> Vp9Config {
     Vp9Config { width: 1280, height: 720, profile: 2, bit_depth: 10, color_space: 1, transfer_function: 1, matrix_coefficients: 1, level: 31, full_range_flag: 1 }
 }
 
+/// switched on by C11's check: reference init segments come from child processes
+pub static REFERENCE_INITS: std::sync::atomic::AtomicBool = std::sync::atomic::AtomicBool::new(false);
+static REF_CACHE: std::sync::Mutex<Option<std::collections::HashMap<String, Option<Vec<u8>>>>> = std::sync::Mutex::new(None);
+
+/// child mode `mc --c11-init <cfg json>`: the init segment of the only muxer this process creates
+pub fn child_init(cfg_json: &str) -> i32 {
+    let Ok(cfg) = serde_json::from_str::<FCfg>(cfg_json) else { return 2 };
+    match guarded(|| make(&cfg).map(|mut m| m.init_segment())) {
+        Ok(Ok(init)) => {
+            println!("{}", oracle::model::hex(&init));
+            0
+        }
+        _ => 3,
+    }
+}
+
+fn reference_init(cfg: &FCfg) -> Option<Vec<u8>> {
+    if !REFERENCE_INITS.load(std::sync::atomic::Ordering::Relaxed) {
+        return None;
+    }
+    let key = serde_json::to_string(cfg).ok()?;
+    let mut g = REF_CACHE.lock().unwrap_or_else(|e| e.into_inner());
+    let map = g.get_or_insert_with(Default::default);
+    if let Some(v) = map.get(&key) {
+        return v.clone();
+    }
+    let exe = std::env::current_exe().ok()?;
+    let out = std::process::Command::new(exe).arg("--c11-init").arg(&key).stderr(std::process::Stdio::null()).output().ok();
+    let v = out.filter(|o| o.status.success()).and_then(|o| oracle::model::unhex(String::from_utf8_lossy(&o.stdout).trim()));
+    map.insert(key, v.clone());
+    v
+}
+
 pub fn make(cfg: &FCfg) -> Result<FragmentedMuxer, String> {
     let seq = frames::av1_seq_obu(&frames::SeqHdr::default().normalised());
     if cfg.via_builder {
@@ -329,6 +362,14 @@ pub fn step(m: &mut FragmentedMuxer, r: &mut RefModel, cfg: &FCfg, op: &FOp, out
                             out.push(("C11", "init/depends-on-request-time".into(), format!("the init segment first requested at this point differs from the one a fresh muxer returns at byte {pos} (lengths {} / {})", init.len(), want.len())));
                         }
                     }
+                    // ... and the answer of a muxer with this configuration in a process of its
+                    // own, where no other muxer was ever created (state shared between objects)
+                    if let Some(want) = reference_init(cfg) {
+                        if init != want {
+                            let pos = want.iter().zip(&init).position(|(a, b)| a != b).unwrap_or(want.len().min(init.len()));
+                            out.push(("C11", "init/depends-on-other-muxers".into(), format!("the init segment differs at byte {pos} from the one the same configuration yields in a fresh process (lengths {} / {})", init.len(), want.len())));
+                        }
+                    }
                     r.init = Some(init);
                 }
                 Some(first) => {
@@ -423,6 +464,11 @@ fn check_segment(seg: &[u8], r: &mut RefModel, _cfg: &FCfg, out: &mut Vec<Issue>
         if let (Some(w), true) = (want, want.map(|w| w <= u32::MAX as u64).unwrap_or(false)) {
             if d != Some(w) {
                 out.push(("C11", "segment/sample-duration".into(), format!("sample {i}: trun duration {d:?}, decode times differ by {w}")));
+                if i + 1 < n {
+                    // a reader places the next sample at the base decode time plus the durations
+                    // before it: that sample is described with another decode time than was accepted
+                    out.push(("C10", "segment/sample-altered/decode-time".into(), format!("sample {}: a reader adding up the trun durations places it {d:?} after sample {i}, the accepted writes are {w} apart", i + 1)));
+                }
             }
         }
         durs.push(d.unwrap_or(0));
@@ -726,7 +772,7 @@ fn collect_run(ctx: &Ctx, prop: &'static str, over: Option<(&'static [WSym], usi
     });
     let what = match prop {
         "C10" => "write accepted iff DTS not below the last accepted one, rejected writes and empty flushes leave the Debug state unchanged, flush returns None iff nothing is queued, mfhd sequence numbers 1,2,3..., trun sample count/sizes and the bytes found through data_offset equal the FIFO of accepted samples, mdat is exactly their concatenation, ready_to_flush / current_fragment_duration_ms equal the reference predicate",
-        "C11" => "trun durations = submitted DTS differences (last = previous), composition offsets = pts - dts, non-sync flag = not sync; base decode time never moves backwards nor before the previous segment's last sample; constant-interval streams with >= 2 samples per segment keep base - first DTS constant; init segment byte-identical on every request and, at its first request after any history, identical to a fresh muxer's",
+        "C11" => "trun durations = submitted DTS differences (last = previous), composition offsets = pts - dts, non-sync flag = not sync; base decode time never moves backwards nor before the previous segment's last sample; constant-interval streams with >= 2 samples per segment keep base - first DTS constant; init segment byte-identical on every request and, at its first request after any history, identical to a fresh muxer's and to the one the same configuration yields in a process of its own",
         "C02" => "every init segment and media segment parses strictly (exact tiling, mandatory hierarchy, count consistency, trex for the track, moof{mfhd,traf{tfhd,tfdt,trun}} + mdat)",
         _ => "rejected fragmented writes leave the complete Debug state unchanged",
     };
@@ -991,7 +1037,14 @@ fn spans(ctx: &Ctx, prop: &'static str) -> Tally {
 }
 
 pub fn check(ctx: &Ctx, prop: &'static str) -> i32 {
+    if prop == "C11" {
+        REFERENCE_INITS.store(true, std::sync::atomic::Ordering::Relaxed);
+    }
     let (mut tally, mut meta) = collect(ctx, prop);
+    if prop == "C11" {
+        let n = REF_CACHE.lock().map(|g| g.as_ref().map(|m| m.values().filter(|v| v.is_some()).count()).unwrap_or(0)).unwrap_or(0);
+        tally.count("reference_init_segments_from_child_processes", n as u64);
+    }
     let t6 = spans(ctx, prop);
     tally.count("span_histories", t6.evaluations);
     tally.merge(t6);
